@@ -92,7 +92,8 @@ def prop(spec, rec):
     require(abs(acnsim.total_energy_delivered(sim) - del_tot) <= 1e-9 * (1 + del_tot), "total_energy_delivered", lambda: "%r vs %r" % (acnsim.total_energy_delivered(sim), del_tot))
     integral = math.fsum(wantp) * spec["period"] / 60.0
     require(abs(acnsim.total_energy_delivered(sim) - integral) <= 1e-9 * (1 + integral), "total_energy_equals_power_integral", lambda: "delivered %r kWh, integral of aggregate power %r" % (acnsim.total_energy_delivered(sim), integral))
-    require(abs(acnsim.proportion_of_energy_delivered(sim) - del_tot / req_tot) <= 1e-9, "proportion_of_energy_delivered", lambda: "%r vs %r" % (acnsim.proportion_of_energy_delivered(sim), del_tot / req_tot))
+    if req_tot > 0:
+        require(abs(acnsim.proportion_of_energy_delivered(sim) - del_tot / req_tot) <= 1e-9, "proportion_of_energy_delivered", lambda: "%r vs %r" % (acnsim.proportion_of_energy_delivered(sim), del_tot / req_tot))
     thr = spec["threshold"]
     rem = [s["energy"] - h.evs[s["id"]].energy_delivered for s in spec["sessions"]]
     if all(abs(r - thr) > 1e-9 for r in rem):
